@@ -12,7 +12,8 @@ from vlib import *
 from c16 import FuseClient, FuseError, OP, parse_entry_out, FUSE_NO_OPEN_SUPPORT, FUSE_ATOMIC_O_TRUNC
 
 PROP = 'C18'
-SIZES0 = [0, 1, 4095, 4096, 10 ** 6]
+SIZES0 = [0, 1, 4095, 4096, 10 ** 6, 2 ** 32 + 1]          # the last one is sparse: sizes beyond u32
+FUSE_WRITEBACK_CACHE, FUSE_HANDLE_KILLPRIV_V2 = 1 << 16, 1 << 28
 O_TRUNC, O_APPEND, O_EXCL, O_NONBLOCK = 0o1000, 0o2000, 0o200, 0o4000
 FATTR_MODE, FATTR_SIZE = 1, 8
 EPERM, EBADF, EINVAL = 1, 9, 22
@@ -21,52 +22,22 @@ U64 = 2 ** 64 - 1
 COQ_HEADER = ('From Coq Require Import List NArith Bool.\nFrom FB Require Import Model.Seal.\n'
               'Import ListNotations.\nLocal Open Scope N_scope.\n')
 
-def fn_body(src, name):
-    """text of `fn <name>(` ... up to the matching closing brace (brace counting on a fixed subset of Rust)"""
-    m = re.search(r'\bfn %s\s*(<[^>]*>)?\s*\(' % re.escape(name), src)
-    if not m: return None
-    i = src.index('{', m.end()); d = 0
-    for j in range(i, len(src)):
-        if src[j] == '{': d += 1
-        elif src[j] == '}':
-            d -= 1
-            if d == 0: return src[i:j + 1]
-    return None
-
-def read_fixes(repo):
-    """which O_TRUNC / O_APPEND refusals under seal_size the tree contains (Model/Seal.v `fixes`); a reading the
-    model-vs-implementation comparison validates on every run.  -> (dict, error or None)"""
-    try:
-        src = strip_rust_comments(open(os.path.join(repo, 'src/passthrough/sync_io.rs')).read())
-    except OSError as ex:
-        return None, str(ex)
-    out = {}
-    for key, fn, flag in (('fx_open', 'do_open', 'O_TRUNC'), ('fx_create', 'create', 'O_TRUNC'), ('fx_append', 'write', 'O_APPEND')):
-        body = fn_body(src, fn)
-        if body is None: return None, 'fn %s not found in src/passthrough/sync_io.rs' % fn
-        # a statement that mentions both seal_size and the flag (`if self.seal_size... && flags & O_X != 0`)
-        out[key] = bool(re.search(r'seal_size[^;{}]*%s|%s[^;{}]*seal_size' % (flag, flag), body)) or \
-                   bool(key == 'fx_append' and re.search(r'O_APPEND[^;{}]*\{\s*return Err\(eperm\(\)\)', body))
-    return out, None
-
-def strip_rust_comments(s):
-    return re.sub(r'//[^\n]*', '', re.sub(r'/\*.*?\*/', '', s, flags=re.S))
-
 def coq_fixes(fx):
     return '(mk_fixes %s %s %s)' % tuple('true' if fx[k] else 'false' for k in ('fx_open', 'fx_create', 'fx_append'))
 
 class Inst:
     """one file system instance over its own copy of the tree"""
-    def __init__(self, bindir, root, seal, no_open, kind='passthrough'):
+    def __init__(self, bindir, root, seal, no_open, kind='passthrough', opts='', verb='msg'):
         self.root, self.seal, self.no_open, self.kind = root, seal, no_open, kind
         shutil.rmtree(root, ignore_errors=True); os.makedirs(root)
         for i, sz in enumerate(SIZES0):
             with open(os.path.join(root, 'f%d' % i), 'wb') as f: f.truncate(sz)
-        self.cl = FuseClient(os.path.join(bindir, 'seal'))
-        if kind == 'passthrough': self.cl.new('passthrough root=%s seal_size=%d no_open=%d cache_always=%d' % (root, seal, no_open, no_open))
-        else: self.cl.new('vfs seal_size=%d no_open=%d cache_always=%d mount=/=%s' % (seal, no_open, no_open, root))
-        neg = self.cl.init(FUSE_ATOMIC_O_TRUNC | (FUSE_NO_OPEN_SUPPORT if no_open else 0))
-        if bool(neg & FUSE_NO_OPEN_SUPPORT) != bool(no_open): raise FuseError('no_open negotiation failed')
+        self.cl = FuseClient(os.path.join(bindir, 'seal')); self.cl.verb = verb
+        if kind == 'passthrough': self.cl.new('passthrough root=%s seal_size=%d no_open=%d cache_always=%d %s' % (root, seal, no_open, no_open, opts))
+        else: self.cl.new('vfs seal_size=%d no_open=%d cache_always=%d %s mount=/=%s' % (seal, no_open, no_open, opts, root))
+        want = (FUSE_NO_OPEN_SUPPORT if no_open else 0) | (FUSE_WRITEBACK_CACHE if 'writeback=1' in opts else 0) | (FUSE_HANDLE_KILLPRIV_V2 if 'killpriv_v2=1' in opts else 0)
+        neg = self.cl.init(FUSE_ATOMIC_O_TRUNC | want)
+        if neg & want != want: raise FuseError('negotiation failed: wanted %#x got %#x (%s)' % (want, neg, opts))
         self.nodes = []
         for i in range(len(SIZES0)):
             err, ent = self.cl.lookup(1, b'f%d' % i)
@@ -85,17 +56,24 @@ class Inst:
         """-> errno (0 ok); 'panic'/'noreply' strings on anomalies"""
         cl = self.cl; k = r['op']
         if k == 'open':
-            rep = cl.msg(OP['OPEN'], self.nodes[r['file']], struct.pack('<II', r['flags'], 0))
+            rep = cl.msg(OP['OPEN'], self.nodes[r['file']], struct.pack('<II', r['flags'], r.get('ofuse', 0)))
             if isinstance(rep, tuple) and rep[0] == 0: self.fh[r['slot']] = struct.unpack('<Q', rep[1][:8])[0]
         elif k == 'create':
-            rep = cl.msg(OP['CREATE'], 1, struct.pack('<IIII', r['flags'], 0o644, 0, 0) + b'f%d\0' % r['file'])
+            rep = cl.msg(OP['CREATE'], 1, struct.pack('<IIII', r['flags'], 0o644, 0, r.get('ofuse', 0)) + b'f%d\0' % r['file'])
             if isinstance(rep, tuple) and rep[0] == 0:
                 if not self.no_open: self.fh[r['slot']] = struct.unpack('<Q', rep[1][128:136])[0]
                 cl.forget(parse_entry_out(rep[1])['nodeid'], 1)
         elif k == 'write':
             fh = 0 if self.no_open else self.fh.get(r['slot'], 0xdead0000 + r['slot'])
             rep = cl.msg(OP['WRITE'], self.nodes[r['file']],
-                         struct.pack('<QQIIQII', fh, r['off'], r['len'], 0, 0, r['wflags'], 0) + b'\xab' * r['len'], bufsize=4096)
+                         struct.pack('<QQIIQII', fh, r['off'], r['len'], r.get('wfuse', 0), 0, r['wflags'], 0) + b'\xab' * r['len'], bufsize=4096)
+        elif k == 'read':
+            fh = 0 if self.no_open else self.fh.get(r['slot'], 0xdead0000 + r['slot'])
+            rep = cl.msg(OP['READ'], self.nodes[r['file']], struct.pack('<QQIIQII', fh, 0, 16, 0, 0, r['rflags'], 0), bufsize=8192)
+            if isinstance(rep, tuple): rep = (rep[0], b'')
+        elif k == 'raw':
+            rep = cl.msg(r['opcode'], r['nodeid'], r['mk'](r['fhfn']()), bufsize=8192)
+            if isinstance(rep, tuple): rep = (rep[0], b'')
         elif k == 'fallocate':
             fh = 0 if self.no_open else self.fh.get(r['slot'], 0xdead0000 + r['slot'])
             rep = cl.msg(OP['FALLOCATE'], self.nodes[r['file']], struct.pack('<QQQII', fh, r['off'], r['len'], r['mode'], 0))
@@ -121,6 +99,8 @@ def coq_req(r):
     if k == 'fallocate': return 'Fallocate %d %d %d %d %d' % (r['slot'], r['file'], r['mode'], r['off'], r['len'])
     if k == 'setattr': return 'Setattr %d %s %d' % (r['file'], 'true' if r['with_size'] else 'false', r['size'])
     if k == 'release': return 'Release %d %d' % (r['slot'], r['file'])
+    if k == 'read': return 'Read %d %d %d' % (r['slot'], r['file'], r['rflags'])
+    if k == 'raw': return 'raw opcode %d' % r['opcode']
 
 def around(rng, size, ln):
     c = [0, size, max(0, size - ln), max(0, size - ln + 1), max(0, size - 1), size + 1, size // 2, rng.randrange(size + 1), size + 4096]
@@ -143,7 +123,7 @@ def gen_history(rng, n, no_open, modes=None):
                 r = {'op': 'create', 'slot': rng.randrange(4), 'file': f, 'flags': fl}
                 if not (fl & O_EXCL) and not no_open: slots[r['slot']] = (f, fl)
             else:
-                r = {'op': 'open', 'slot': rng.randrange(4), 'file': f, 'flags': fl}
+                r = {'op': 'open', 'slot': rng.randrange(4), 'file': f, 'flags': fl, 'ofuse': rng.choice([0, 0, 1])}
                 if not no_open: slots[r['slot']] = (f, fl)
         elif x < 0.62:
             if no_open: slot, hf, hfl = 0, f, 2
@@ -154,7 +134,10 @@ def gen_history(rng, n, no_open, modes=None):
             ln = rng.choice([0, 1, 4, 100, 4096, 3000])
             acc = hfl & 3
             wfl = rng.choice([hfl, acc, acc | O_APPEND, O_APPEND, acc | O_NONBLOCK, acc | O_APPEND | O_NONBLOCK, hfl & ~O_TRUNC, 2])
-            r = {'op': 'write', 'slot': slot, 'file': hf, 'off': None, 'len': ln, 'wflags': wfl}
+            if rng.random() < 0.15:
+                r = {'op': 'read', 'slot': slot, 'file': hf, 'rflags': wfl}
+            else:
+                r = {'op': 'write', 'slot': slot, 'file': hf, 'off': None, 'len': ln, 'wflags': wfl, 'wfuse': rng.choice([0, 0, 1, 2, 4, 7])}
             if not no_open and slot in slots and slots[slot][0] == hf: slots[slot] = (hf, wfl)
         elif x < 0.82:
             if no_open: slot, hf = 0, f
@@ -192,7 +175,55 @@ def boundary_history(f, size, no_open):
             H.append({'op': 'fallocate', 'slot': 0, 'file': f, 'mode': mode, 'off': off, 'len': ln})
     for ns in (max(0, size - 1), size, size + 1):
         H.append({'op': 'setattr', 'file': f, 'with_size': True, 'size': ns})
+    # the flag word switched by a READ (check_fd_flags is shared), then writes with the same / another word
+    for rfl in (2 | O_APPEND, 2):
+        H.append({'op': 'read', 'slot': 0, 'file': f, 'rflags': rfl})
+        for wfl in (2 | O_APPEND, 2):
+            H.append({'op': 'write', 'slot': 0, 'file': f, 'off': size, 'len': 1, 'wflags': wfl})
+            H.append({'op': 'write', 'slot': 0, 'file': f, 'off': max(0, size - 1), 'len': 1, 'wflags': wfl, 'wfuse': 4})
+    # a handle of another file / a handle that does not exist
+    g = (f + 1) % len(SIZES0)
+    H.append({'op': 'open', 'slot': 1, 'file': g, 'flags': 2})
+    H.append({'op': 'write', 'slot': 1, 'file': f, 'off': size, 'len': 1, 'wflags': 2})
+    H.append({'op': 'fallocate', 'slot': 1, 'file': f, 'mode': 0, 'off': size, 'len': 1})
+    H.append({'op': 'write', 'slot': 3, 'file': f, 'off': size, 'len': 1, 'wflags': 2})
+    H.append({'op': 'release', 'slot': 1, 'file': g})
     H.append({'op': 'release', 'slot': 0, 'file': f})
+    return H
+
+class raw_sweep_proxy:
+    """the sweep needs the instance (node ids, handle): it is materialised when iterated inside sealed_history"""
+    def __init__(self, f): self.f = f
+
+def raw_sweep(S, f, size):
+    """request fields the model does not know, one at a time (sealed export, judged by the predicate only): every bit
+    of the OPEN/CREATE flag word alone and with O_TRUNC, every SETATTR valid bit alone / with SIZE / with FH, every
+    fallocate mode 0..255 inside, across and beyond EOF, COPY_FILE_RANGE onto the file"""
+    node = S.nodes[f]; H = []
+    for bit in range(0, 23):
+        for extra in (0, O_TRUNC):
+            for acc in (2, 0):
+                fl = acc | (1 << bit) | extra
+                if fl & 0o20000: continue                                  # O_ASYNC: would arm SIGIO for the harness process
+                # O_PATH (bit 21) makes the kernel ignore O_TRUNC: such a request cannot change a size
+                H.append(({'op': 'open', 'slot': 2, 'file': f, 'flags': fl}, 'change' if fl & O_TRUNC and not fl & 0o10000000 else 'neutral'))
+                H.append(({'op': 'release', 'slot': 2, 'file': f}, 'neutral'))
+            H.append(({'op': 'create', 'slot': 2, 'file': f, 'flags': 2 | (1 << bit) | extra}, 'change' if extra and (1 << bit) not in (O_EXCL, 0o10000000) else 'neutral'))
+            H.append(({'op': 'release', 'slot': 2, 'file': f}, 'neutral'))
+    H.append(({'op': 'open', 'slot': 0, 'file': f, 'flags': 2}, 'neutral'))
+    fh = lambda: 0 if S.no_open else S.fh.get(0, 0)
+    for bit in range(0, 13):
+        for valid, cls in ((1 << bit, 'change' if bit == 3 else 'neutral'), ((1 << bit) | FATTR_SIZE, 'change'), ((1 << bit) | 64, 'change' if bit == 3 else 'neutral'), ((1 << bit) | FATTR_SIZE | 64, 'change')):
+            for ns in (size + 1, max(0, size - 1)):
+                H.append(({'op': 'raw', 'opcode': OP['SETATTR'], 'nodeid': node, 'fhfn': fh, 'mk': (lambda v, n: lambda h: struct.pack('<IIQQQQQQIIIIIIII', v, 0, h, n, 0, 5, 6, 7, 0, 0, 0, 0o100644, 0, 0, 0, 0))(valid, ns)}, cls))
+    for mode in range(256):
+        op = mode & ~(1 | 64)
+        for off, ln in ((0, 1), (max(0, size - 1), 2), (size, 1)):
+            cls = 'neutral' if op not in (0, 2, 16, 8, 32) else ('change' if (op in (8, 32) or off + ln > size) else 'within')
+            H.append(({'op': 'fallocate', 'slot': 0, 'file': f, 'mode': mode, 'off': off, 'len': ln}, cls))
+    # COPY_FILE_RANGE (opcode 47) onto the file, beyond its size
+    H.append(({'op': 'raw', 'opcode': 47, 'nodeid': node, 'fhfn': fh, 'mk': lambda h: struct.pack('<QQQQQQQ', h, 0, node, h, size, 8, 0)}, 'change'))
+    H.append(({'op': 'release', 'slot': 0, 'file': f}, 'neutral'))
     return H
 
 def concretize(rng, r, sizes, cap):
@@ -272,7 +303,7 @@ def run_check(tier, seed):
         'host model in Model/Seal.v (pwrite ignores the offset under O_APPEND, O_TRUNC truncates on open, linux/ext4 fallocate modes, s_maxbytes): validated by the unsealed runs of the tie on this host, trusted elsewhere; the theorems only use "fallocate inside the file keeps its size"',
         'props/c16.py FuseClient (hand-written FUSE encoder/decoder) and os.stat for the observed sizes',
     ]
-    ev.assumptions = ['server runs as root (O_TRUNC needs no write permission bits)', 'writeback cache off, killpriv_v2 off, O_DIRECT/O_ASYNC not used in flag words',
+    ev.assumptions = ['server runs as root (O_TRUNC needs no write permission bits)', 'O_ASYNC not used in flag words; flag bits other than access mode / O_TRUNC / O_APPEND / O_EXCL are outside the Coq model (swept on the real code, judged by the predicate)',
                       'only regular files that exist before the first request are observed']
     findings, broken = [], []
     rng = random.Random(seed)
@@ -280,81 +311,101 @@ def run_check(tier, seed):
     t0 = time.time()
     std_audit(ev, PROP, broken)
     log('C18: coq audit %.1fs' % (time.time() - t0)); t0 = time.time()
-    ok, out, bindir = cargo_build(['seal'])
+    ok, out, bindir = cargo_build(['seal'], features=['async-io'])
     if not ok:
         broken.append({'kind': 'harness-build', 'log': out[-3000:]})
         return finish(ev, PROP, findings, broken)
-    # the theorems (C18_full) are about the model with the three refusals of commit 4429c29; the source must have them
-    fx_src, fxerr = read_fixes(REPO)
-    if fx_src is None:
-        broken.append({'kind': 'translator', 'item': 'props/c18.py read_fixes', 'error': fxerr})
-    elif not all(fx_src.values()):
-        broken.append({'kind': 'translator', 'item': 'src/passthrough/sync_io.rs no longer contains a seal_size refusal the model has',
-                       'missing': [k for k, v in fx_src.items() if not v]})
-    fx = {'fx_open': True, 'fx_create': True, 'fx_append': True}
-    ev.cov['code_variant'] = {'model': 'all_fixes', 'source_reading': fx_src, 'decided_by': 'C18_full'}
-    nh = 30 if quick else 400
+    fx = {'fx_open': True, 'fx_create': True, 'fx_append': True}      # the model the theorems (C18_full) are about
+    ev.cov['code_variant'] = {'model': 'all_fixes', 'decided_by': 'C18_full'}
+    nh = 24 if quick else 400
     evals = 0; nontriv = set(); samples = []; exprs = []; meta = []
     base = os.path.join(SCRATCH, 'c18-tree')
+
+    def sealed_history(H, no_open, kind, opts, verb, label, tie=True, raw=None):
+        """run H on a sealed export (S) with an unsealed one (U) in lockstep; judge; optionally queue the Coq replay.
+        `raw`: list of (request, class) judged by the predicate only (request fields outside the model)"""
+        nonlocal evals
+        S = Inst(bindir, base + '-s', 1, no_open, kind, opts, verb); U = None if raw is not None else Inst(bindir, base + '-u', 0, no_open, kind, opts, verb)
+        cfgd = {'seal_size': True, 'no_open': bool(no_open), 'kind': kind, 'options': opts, 'entry': 'async_handle_message' if verb == 'amsg' else 'handle_message', 'block': label}
+        wb = 'writeback=1' in opts
+        cases = []
+        try:
+            if raw is not None: raw = raw_sweep(S, raw.f, SIZES0[raw.f])
+            for item in (raw if raw is not None else H):
+                r, forced = (item if raw is not None else (item, None))
+                before = S.sizes()
+                concretize(rng, r, before, None)
+                cls = forced or classify(r, before)
+                try:
+                    e = S.send(r)
+                except FuseError as ex:
+                    findings.append({'what': 'sealed export: the server process died on %s (%s)' % (coq_req(r), str(ex)[:80]),
+                                     'input': {'config': cfgd, 'request': {k: v for k, v in r.items() if not callable(v)}, 'sizes_before': before,
+                                               'prefix': [coq_req(x) for x, _, _ in cases][-15:]}, 'sig': dict(sig_of(r), kind='server-abort')})
+                    break
+                after = S.sizes(); evals += 1
+                inp = {'config': cfgd, 'request': {k: v for k, v in r.items() if not callable(v)}, 'sizes_before': before, 'sizes_after': after, 'errno': e,
+                       'prefix': [coq_req(x) for x, _, _ in cases][-12:]}
+                if e in ('panic', 'noreply'):
+                    findings.append({'what': 'sealed export: request %s -> %s' % (r['op'], e), 'input': inp, 'sig': dict(sig_of(r), anomaly=e)}); break
+                if after != before:
+                    findings.append({'what': 'sealed export: %s changed the size of a pre-existing file: %s -> %s (errno %s)' % (coq_req(r), before, after, e),
+                                     'input': inp, 'sig': sig_of(r)})
+                elif cls == 'change' and e == 0 and not (r['op'] == 'write' and r['len'] == 0):
+                    findings.append({'what': 'sealed export: size-changing request %s was not refused' % coq_req(r), 'input': inp,
+                                     'sig': dict(sig_of(r), kind='not-refused')})
+                if U is not None:
+                    if r['op'] in ('open', 'create'):
+                        # keep the handle tables alike: the reference opens what the sealed export opened
+                        # (without O_TRUNC, which a sealed export has to refuse)
+                        if e == 0:
+                            ru = dict(r); ru['flags'] &= ~O_TRUNC; U.send(ru); evals += 1
+                    elif cls == 'within' or (cls == 'neutral' and r['op'] != 'setattr'):
+                        U.reset_sizes(before)
+                        eu = U.send(dict(r)); au = U.sizes(); evals += 1
+                        if cls == 'within' and (eu != e or au != after) and after == before:
+                            findings.append({'what': 'request within the size behaves differently on the sealed export: %s sealed errno %s sizes %s, unsealed errno %s sizes %s'
+                                             % (coq_req(r), e, after, eu, au), 'input': inp, 'sig': dict(sig_of(r), kind='differs-from-unsealed')})
+                nontriv.add((r['op'], cls, e, no_open, label if raw is not None else '', r.get('flags', r.get('wflags', r.get('mode', r.get('rflags', 0))))))
+                cases.append((r, e, after))
+            if tie and raw is None:
+                exprs.append('(hist_check tie_host (mk_cfg true %s %s %s) %d (init_state [%s]) [%s])' % (
+                    'true' if no_open else 'false', coq_fixes(fx), 'true' if wb else 'false', len(SIZES0), '; '.join(map(str, SIZES0)),
+                    ';\n '.join('(%s, %d, [%s])' % (coq_req(r), e, '; '.join(map(str, a))) for r, e, a in cases)))
+                meta.append({'config': cfgd, 'requests': [coq_req(r) for r, _, _ in cases], 'errnos': [e for _, e, _ in cases], 'sizes': [a for _, _, a in cases]})
+            if len(samples) < 3 and cases: samples.append({'config': cfgd, 'first_requests': [(coq_req(r), e, a) for r, e, a in cases[:4]]})
+        finally:
+            S.close()
+            if U is not None: U.close()
+
+    # configuration cells (each crossed with the requests on which it matters: the boundary histories)
+    CELLS = [('', 'msg', 'default'), ('', 'amsg', 'async entry points'), ('inode_file_handles=1', 'msg', 'inode_file_handles'),
+             ('killpriv_v2=1', 'msg', 'killpriv_v2'), ('writeback=1', 'msg', 'writeback'), ('no_direct_io=1', 'msg', 'allow_direct_io=false'),
+             ('writeback=1 killpriv_v2=1 inode_file_handles=1', 'amsg', 'all knobs, async')]
     try:
         evals += probe_refusal_closes_fd(bindir, base, findings)
         for no_open in (0, 1):
-            # ---- sealed export S, unsealed reference U in lockstep
-            for hi in range(nh + max(6, nh // 5)):
-                kind = 'passthrough' if hi < nh else 'vfs'          # the last histories go through a Vfs with the export mounted at /
-                S = Inst(bindir, base + '-s', 1, no_open, kind); U = Inst(bindir, base + '-u', 0, no_open, kind)
-                try:
-                    # the first histories are the deterministic boundary histories, one per pre-existing file
-                    H = boundary_history(hi, SIZES0[hi], no_open) if hi < len(SIZES0) else gen_history(rng, 45, no_open)
-                    cases = []
-                    dead = set()
-                    for r in H:
-                        before = S.sizes()
-                        concretize(rng, r, before, None)
-                        cls = classify(r, before)
-                        try:
-                            e = S.send(r)
-                        except FuseError as ex:
-                            findings.append({'what': 'sealed export: the server process died on %s (%s)' % (coq_req(r), str(ex)[:80]),
-                                             'input': {'config': {'seal_size': True, 'no_open': bool(no_open)}, 'request': dict(r), 'sizes_before': before,
-                                                       'prefix': [coq_req(x) for x, _, _ in cases][-15:]},
-                                             'sig': dict(sig_of(r), kind='server-abort')})
-                            break
-                        after = S.sizes(); evals += 1
-                        cfgd = {'seal_size': True, 'no_open': bool(no_open), 'kind': kind}
-                        inp = {'config': cfgd, 'history_index': hi, 'request': dict(r), 'sizes_before': before, 'sizes_after': after, 'errno': e,
-                               'prefix': [coq_req(x) for x, _, _ in cases][-12:]}
-                        if e in ('panic', 'noreply'):
-                            findings.append({'what': 'sealed export: request %s -> %s' % (r['op'], e), 'input': inp, 'sig': dict(sig_of(r), anomaly=e)}); break
-                        if after != before:
-                            findings.append({'what': 'sealed export: %s changed the size of a pre-existing file: %s -> %s (errno %s)' % (coq_req(r), before, after, e),
-                                             'input': inp, 'sig': sig_of(r)})
-                        elif cls == 'change' and e == 0 and not (r['op'] == 'write' and r['len'] == 0):
-                            findings.append({'what': 'sealed export: size-changing request %s was not refused' % coq_req(r), 'input': inp,
-                                             'sig': dict(sig_of(r), kind='not-refused')})
-                        if r['op'] in ('open', 'create'):
-                            # keep the handle tables alike: the reference opens what the sealed export opened
-                            # (without O_TRUNC, which a sealed export has to refuse or ignore)
-                            if e == 0:
-                                ru = dict(r); ru['flags'] &= ~O_TRUNC; U.send(ru); evals += 1
-                        elif cls == 'within' or (cls == 'neutral' and r['op'] != 'setattr'):
-                            U.reset_sizes(before)
-                            eu = U.send(dict(r)); au = U.sizes(); evals += 1
-                            if cls == 'within' and (eu != e or au != after) and after == before:
-                                findings.append({'what': 'request within the size behaves differently on the sealed export: %s sealed errno %s sizes %s, unsealed errno %s sizes %s'
-                                                 % (coq_req(r), e, after, eu, au), 'input': inp, 'sig': dict(sig_of(r), kind='differs-from-unsealed')})
-                        nontriv.add((r['op'], cls, e, no_open, r.get('flags', r.get('wflags', r.get('mode', 0)))))
-                        cases.append((r, e, after))
-                    exprs.append('(hist_check tie_host (mk_cfg true %s %s) %d (init_state [%s]) [%s])' % (
-                        'true' if no_open else 'false', coq_fixes(fx), len(SIZES0), '; '.join(map(str, SIZES0)),
-                        ';\n '.join('(%s, %d, [%s])' % (coq_req(r), e, '; '.join(map(str, a))) for r, e, a in cases)))
-                    meta.append({'config': {'seal_size': True, 'no_open': bool(no_open), 'kind': kind}, 'requests': [coq_req(r) for r, _, _ in cases], 'errnos': [e for _, e, _ in cases], 'sizes': [a for _, _, a in cases]})
-                    if len(samples) < 3: samples.append({'config': {'seal_size': True, 'no_open': bool(no_open)}, 'first_requests': [(coq_req(r), e, a) for r, e, a in cases[:4]]})
-                finally:
-                    S.close(); U.close()
+            # ---- deterministic: one boundary history per pre-existing file, default configuration, both fs kinds
+            for f in range(len(SIZES0)):
+                sealed_history(boundary_history(f, SIZES0[f], no_open), no_open, 'passthrough', '', 'msg', 'boundary f%d' % f)
+            sealed_history(boundary_history(2, SIZES0[2], no_open), no_open, 'vfs', '', 'msg', 'boundary f2 through Vfs')
+            # ---- deterministic: every configuration cell x boundary histories of two files (4095 bytes, 4 GiB + 1 sparse)
+            for opts, verb, label in CELLS[1:]:
+                for f in (2, 5):
+                    sealed_history(boundary_history(f, SIZES0[f], no_open), no_open, 'passthrough', opts, verb, 'cell %s, boundary f%d' % (label, f))
+            sealed_history(boundary_history(3, SIZES0[3], no_open), no_open, 'vfs', 'killpriv_v2=1', 'amsg', 'cell Vfs async killpriv, boundary f3')
+            # ---- deterministic: request fields the model does not know, one at a time (predicate only)
+            sealed_history(None, no_open, 'passthrough', '', 'msg', 'field sweep f3', tie=False, raw=raw_sweep_proxy(3))
+            sealed_history(None, no_open, 'passthrough', 'killpriv_v2=1', 'amsg', 'field sweep f1, async', tie=False, raw=raw_sweep_proxy(1))
+            # ---- random histories: default cell mostly, the other cells in turn
+            for hi in range(nh):
+                opts, verb, label = CELLS[hi % len(CELLS)] if hi % 2 else CELLS[0]
+                kind = 'vfs' if hi % 6 == 5 else 'passthrough'
+                sealed_history(gen_history(rng, 45, no_open), no_open, kind, opts, verb, 'random')
             # ---- unsealed runs: validate the host model used in the theorems' instance
             for hi in range(max(8, nh // 4)):
-                U = Inst(bindir, base + '-v', 0, no_open)
+                opts = 'writeback=1' if hi % 4 == 3 else ''
+                U = Inst(bindir, base + '-v', 0, no_open, 'passthrough', opts, 'amsg' if hi % 4 == 1 else 'msg')
                 try:
                     # mode bit 128 (FALLOC_FL_WRITE_ZEROES) exists only on recent kernels: not part of the host model
                     H = gen_history(rng, 40, no_open, [m for m in FALLOC_MODES if m < 128]); cases = []
@@ -363,10 +414,10 @@ def run_check(tier, seed):
                         e = U.send(r); after = U.sizes(); evals += 1
                         if e in ('panic', 'noreply'): break
                         cases.append((r, e, after))
-                    exprs.append('(hist_check tie_host (mk_cfg false %s %s) %d (init_state [%s]) [%s])' % (
-                        'true' if no_open else 'false', coq_fixes(fx), len(SIZES0), '; '.join(map(str, SIZES0)),
+                    exprs.append('(hist_check tie_host (mk_cfg false %s %s %s) %d (init_state [%s]) [%s])' % (
+                        'true' if no_open else 'false', coq_fixes(fx), 'true' if opts else 'false', len(SIZES0), '; '.join(map(str, SIZES0)),
                         ';\n '.join('(%s, %d, [%s])' % (coq_req(r), e, '; '.join(map(str, a))) for r, e, a in cases)))
-                    meta.append({'config': {'seal_size': False, 'no_open': bool(no_open)}, 'requests': [coq_req(r) for r, _, _ in cases], 'errnos': [e for _, e, _ in cases], 'sizes': [a for _, _, a in cases]})
+                    meta.append({'config': {'seal_size': False, 'no_open': bool(no_open), 'options': opts}, 'requests': [coq_req(r) for r, _, _ in cases], 'errnos': [e for _, e, _ in cases], 'sizes': [a for _, _, a in cases]})
                 finally:
                     U.close()
     except FuseError as ex:
